@@ -29,15 +29,27 @@ META = dict(
          "write them: sent through the real AsyncKicker with a pre_send middleware stamping labels after typing, labels_types covering "
          "all / some / none of the labels, null, {}, absent, entries for absent labels, the label types of prepare_label, odd / duplicate "
          "task ids, keyword / nested JSON arguments, extra top-level fields, ProxyFormatter+JSON / JSONFormatter / ProxyFormatter+pickle); "
+         "for ~25 percent the tasks the messages name are registered late / elsewhere: before the Receiver exists, after it exists, while "
+         "listen() runs (between messages), on the worker's broker (decorator / register_task), through async_shared_broker (global "
+         "registry, default broker set before / after / never) or on another broker object (unknown to this worker: skipped);"
+         " Further family (own random stream): the REAL taskiq.api.run_receiver_task coroutine runs for the whole scenario over a scripted listen() that raises 0..3 times (ConnectionError, RuntimeError, TimeoutError, OSError, EOFError, a client's own class, a falsy exception object, an ExceptionGroup, BrokerError) as the first thing a session does / right after taking a message / while tasks are in flight / while idle, the remaining messages going to the re-started listening; N and wait_tasks_timeout set by the receiver class handed to it, stop = the finish event it gave to listen(); decided by the direct oracles only, every listen() session held to the statement by its own messages; "
          "non-trivial iff >= 2 valid messages and (a stop instant, or N, or a malformed / unknown message, "
          "or a backlog > A+P+1); distinct by canonical scenario",
     trusted_base=["model: coq/theories/RecvLTS.v; defective variant coq/findings/FindingsRecv.v",
                   "logging shims + raw log -> LTS event grouping: harness/shims.py; harness/vloop.py"],
-    assumptions=["the broker's listen() generator takes a message only at its yield and raises nothing but StopAsyncIteration",
+    assumptions=["the broker's listen() generator takes a message only at its yield; in the proofs it raises nothing but StopAsyncIteration "
+                 "(runs under run_receiver_task with a failing listen() are oracle-checked only: a message that sat in the hand-over "
+                 "queue of the session whose listen() raised is outside the statement's quantifier - no claim; one a failed session "
+                 "had started is claimed only until run_receiver_task itself has ended)",
+                 "a message naming a task that is registered strictly before the message arrives - on the worker's broker or in the "
+                 "global registry - is a valid known-task message",
                  "pre_execute hooks that raise are the pipeline's concern (C10): such a message is exempt from 'must enter the body'"],
 )
-PROF = dict(stop_p=.4, n_p=.35, ends_p=.2, wtt_p=.25, never=.03, wire_p=.3)
-PROF_BACKLOG = dict(backlog=True, stop_p=.3, n_p=.5, ends_p=.1, wtt_p=.2, wire_p=.3)
+# reg_p: when and where the tasks the messages name get registered (recv_props.decorate_reg)
+PROF = dict(stop_p=.4, n_p=.35, ends_p=.2, wtt_p=.25, never=.03, wire_p=.3, reg_p=.25)
+PROF_BACKLOG = dict(backlog=True, stop_p=.3, n_p=.5, ends_p=.1, wtt_p=.2, wire_p=.3, reg_p=.15)
+# run_receiver_task running for the whole scenario over a listen() that fails 0..3 times (recv_props.gen_live)
+PROF_LIVE = dict(stop_p=.4, n_p=.3, ends_p=.15, wtt_p=.2, wire_p=.2, reg_p=.3)
 
 
 def oracle(sc, obs):
@@ -66,6 +78,22 @@ def oracle(sc, obs):
     # never zero
     must = [i for i in taken if f.must_run(i)]
     missing = [i for i in must if not f.bodyin.get(i)]
+    if f.live:
+        # run_receiver_task over a listen() that fails: the statement quantifies over arrival timings, configurations and stop
+        # instants - not over failures of the broker's stream.  A message that sat in the hand-over queue of the session whose
+        # listen() raised was dropped together with that session (never handed to a callback): no claim.  A message a failed
+        # session did start is not waited for by the session that replaced it: no claim while its callback has not ended.
+        # (nor once run_receiver_task itself has ended: it shuts the pool that runs sync functions down on its way out)
+        tags = [e[1] for e in f.raw]
+        wend = min([tags.index(t) for t in ("RETURN", "WORKER.END") if t in tags] + [len(tags)])
+        over = {e[2] for e in f.raw[:wend] if e[1] == "cb.end"}
+        missing = [i for i in missing if i not in f.dropped and (f.final(i) or i in over or not f.cbstart.get(i))]
+    older = [i for i in missing if not f.final(i)]
+    if older:
+        out.append(dict(what="a valid message taken from the broker and handed to a callback before listen() failed never entered "
+                             "its task function", observed=dict(taken=taken, never_run=older, sessions={str(i): f.session_of(i) for i in older}),
+                        expected="exactly one body entry per valid taken message", sig=dict(kind="lost-before-fault")))
+    missing = [i for i in missing if f.final(i)]
     if f.returned:
         if sc.get("wtt_us") is not None:
             # wait_tasks_timeout: listen() may return while callbacks are still running; such a message (here: still inside a
@@ -78,7 +106,7 @@ def oracle(sc, obs):
     else:
         # cut at the horizon (far beyond every finite duration): messages may stay queued only while every slot is held
         A = sc["A"] if R.limited(sc) else None
-        held = len(f.processing_at_end())
+        held = len([i for i in f.processing_at_end() if f.final(i)])      # (slots of the session that is listening at the cut)
         if missing and (A is None or held < A):
             out.append(dict(what="a valid message taken from the broker never entered its task function although a slot is free",
                             observed=dict(taken=taken, never_run=missing, processing_at_cut=held), expected="exactly one body entry",
@@ -122,12 +150,18 @@ def run(ctx):
     corp = C.load_corpus("C01")
     bad = explore(ctx, rep, [c for n, c in corp if n.startswith("d1_")], "corpus")
     rep.extra["corpus_d1_lookahead_after_budget"] = "passes (repaired)" if not bad else "FAILS: D1 is back"
-    rest = [c for n, c in corp if not n.startswith("d1_")]
+    rest = [c for n, c in corp if n.startswith("valid_messages_")]
     if rest:
         bad = explore(ctx, rep, rest, "corpus:wire-forms")
         rep.extra["corpus_valid_messages_wire_forms"] = "every valid message ran exactly once" if not bad else "FAILS"
+    rest = [c for n, c in corp if not n.startswith("d1_") and not n.startswith("valid_messages_")]
+    if rest:
+        bad = explore(ctx, rep, rest, "corpus:registration-and-life-cycle")
+        rep.extra["corpus_late_shared_registration_and_listen_faults"] = "every valid message ran exactly once" if not bad else "FAILS"
     r = ctx.sub_rng("gen")
     scs = [R.gen_scenario(r, PROF if i % 3 else PROF_BACKLOG) for i in range(ctx.n(450, 30000))]
+    r4 = ctx.sub_rng("gen-live")             # own stream: the scenarios above are what they were
+    scs += [R.gen_live(r4, PROF_LIVE) for _ in range(ctx.n(60, 4000))]
     broken = explore(ctx, rep, scs, "main")
     if not ctx.quick:
         broken = explore(ctx, rep, R.grid_scenarios(), "grid") or broken
